@@ -43,14 +43,16 @@ theorem inv_modify {I : St → Prop} {g : St → St} (h : ∀ s, I s → I (g s)
 
 /-- What the invariants used here tolerate.  `W` = files the save may write. -/
 structure Stable0 (dest mp : String) (I : St → Prop) : Prop where
-  tick : ∀ s c t, I s → I { s with calls := c, trace := t }
+  /-- one file-system call is counted and traced -/
+  tick : ∀ s op, I s → I { s with calls := s.calls + 1, trace := s.trace ++ [op] }
   cb : ∀ s c t, I s → I { s with cb := c, cbTotal := t }
   cv : ∀ s c, I s → I { s with cv := c }
   /-- a change of the two destination files through a write handle -/
   fs : ∀ s fs', (∀ p, p ≠ dest → p ≠ mp → FS.get? fs' p = FS.get? s.fs p) → s.wopened ≠ [] → I s → I { s with fs := fs' }
-  /-- a successful `open(f, "wb")` of a destination file: truncation + the handle -/
-  openW : ∀ s f fs', (∀ p, p ≠ dest → p ≠ mp → FS.get? fs' p = FS.get? s.fs p) → I s →
-    I { s with fs := fs', wopened := s.wopened ++ [f] }
+  /-- a successful (i.e. not the planned fault) `open(f, "wb")` of a destination file, from the state before the call:
+  the call is counted and traced, the file truncated, the handle recorded -/
+  openW : ∀ s f fs', (∀ p, p ≠ dest → p ≠ mp → FS.get? fs' p = FS.get? s.fs p) → I s → s.k ≠ some s.calls →
+    I { s with calls := s.calls + 1, trace := s.trace ++ [.openW f], fs := fs', wopened := s.wopened ++ [f] }
   new : ∀ s t, I s → I { s with heap := s.heap ++ [t] }
 
 structure Stable (dest mp : String) (I : St → Prop) : Prop extends Stable0 dest mp I where
@@ -118,7 +120,7 @@ theorem tick_cases (op : Op) (s : St) :
 theorem inv_tick (op : Op) : Inv I (tick op) := by
   intro s hs
   unfold tick
-  split <;> exact S.tick s _ _ hs
+  split <;> exact S.tick s _ hs
 
 theorem inv_withClose {body : M α} (f : String) (hb : Inv I body) : Inv I (withClose f body) := by
   intro s hs
@@ -153,9 +155,19 @@ theorem frame_append (fs : FS) (f : String) (b : Bytes) (hf : f = dest ∨ f = m
   rcases hf with h | h <;> (rw [h]; assumption)
 
 theorem inv_fsOpenW (f : String) (hf : f = dest ∨ f = mp) : Inv I (fsOpenW f) := by
+  intro s hs
   unfold fsOpenW
-  refine inv_bind (inv_tick S _) (fun _ => inv_modify (fun s hs => ?_))
-  exact S.openW s f _ (frame_set S s.fs f _ hf) hs
+  show I (M.bind (tick _) _ s).2
+  unfold M.bind
+  by_cases hk : s.k = some s.calls
+  · have : tick (.openW f) s = (.error .osError, { s with calls := s.calls + 1, trace := s.trace ++ [.openW f] }) := by
+      unfold tick; rw [if_pos hk]
+    rw [this]
+    exact S.tick s _ hs
+  · have : tick (.openW f) s = (.ok (), { s with calls := s.calls + 1, trace := s.trace ++ [.openW f] }) := by
+      unfold tick; rw [if_neg hk]
+    rw [this]
+    exact S.openW s f _ (frame_set S s.fs f _ hf) hs hk
 
 /-- A body run behind `needHandle f` may assume some write handle exists. -/
 theorem inv_needHandle (f : String) {body : M α} (hb : ∀ s, I s → s.wopened ≠ [] → I (body s).2) :
@@ -179,8 +191,8 @@ theorem inv_fsWrite (f : String) (b : Bytes) (hf : f = dest ∨ f = mp) : Inv I 
   show I (M.bind (tick _) _ s).2
   unfold M.bind
   rcases tick_cases _ s with h | h <;> rw [h]
-  · exact S.tick s _ _ hs
-  · exact S.fs _ _ (frame_append S s.fs f b hf) hw (S.tick s _ _ hs)
+  · exact S.tick s _ hs
+  · exact S.fs _ _ (frame_append S s.fs f b hf) hw (S.tick s _ hs)
 
 theorem inv_fsCWrite (f : String) (b : Bytes) (hf : f = dest ∨ f = mp) : Inv I (fsCWrite f b) := by
   unfold fsCWrite
@@ -195,8 +207,8 @@ theorem inv_fsWriteProto (f : String) (p : Proto) (hf : f = dest ∨ f = mp) : I
   show I (M.bind (tick _) _ s).2
   unfold M.bind
   rcases tick_cases _ s with h | h <;> rw [h]
-  · exact S.tick s _ _ hs
-  · exact S.fs _ _ (frame_set S s.fs f _ hf) hw (S.tick s _ _ hs)
+  · exact S.tick s _ hs
+  · exact S.fs _ _ (frame_set S s.fs f _ hf) hw (S.tick s _ hs)
 
 theorem inv_fsOpenR (f : String) : Inv I (fsOpenR f) := by
   unfold fsOpenR
@@ -266,11 +278,11 @@ theorem getObj_spec (id : Nat) (s : St) :
 /-- "the object at `id` is this external tensor" survives everything that only appends to the heap. -/
 theorem stable0_objAt (dest mp : String) (id : Nat) (t : TRef) :
     Stable0 dest mp (fun s => s.heap[id]? = some t) where
-  tick := fun _ _ _ h => h
+  tick := fun _ _ h => h
   cb := fun _ _ _ h => h
   cv := fun _ _ h => h
   fs := fun _ _ _ _ h => h
-  openW := fun _ _ _ _ h => h
+  openW := fun _ _ _ _ h _ => h
   new := fun s t' h => by
     show (s.heap ++ [t'])[id]? = some t
     have hlt : id < s.heap.length := by
@@ -427,11 +439,11 @@ theorem inv_save {I : St → Prop} (deep : Bool) (sig : List (String × Bool)) (
 theorem stable_orig (h0 : List TRef) (dest mp : String)
     (hgood : ∀ (id : Nat) (f : String) (o l : Nat) (v : Bool), h0[id]? = some (TRef.ext f o l v) → f ≠ dest) :
     Stable dest mp (fun s => ∀ (id : Nat) (t : TRef), h0[id]? = some t → s.heap[id]? = some t) where
-  tick := fun _ _ _ h => h
+  tick := fun _ _ h => h
   cb := fun _ _ _ h => h
   cv := fun _ _ h => h
   fs := fun _ _ _ _ h => h
-  openW := fun _ _ _ _ h => h
+  openW := fun _ _ _ _ h _ => h
   new := fun s t' h id t ht => by
     show (s.heap ++ [t'])[id]? = some t
     have h1 := h id t ht
@@ -454,15 +466,49 @@ theorem stable_orig (h0 : List TRef) (dest mp : String)
 /-- "Files other than the data file and the model file are what they were." -/
 theorem stable_frame (fs0 : FS) (dest mp : String) :
     Stable dest mp (fun s => ∀ p, p ≠ dest → p ≠ mp → FS.get? s.fs p = FS.get? fs0 p) where
-  tick := fun _ _ _ h => h
+  tick := fun _ _ h => h
   cb := fun _ _ _ h => h
   cv := fun _ _ h => h
   fs := fun s fs' hfs _ h p h1 h2 => by
     show FS.get? fs' p = FS.get? fs0 p
     rw [hfs p h1 h2]; exact h p h1 h2
-  openW := fun s f fs' hfs h p h1 h2 => by
+  openW := fun s f fs' hfs h _ p h1 h2 => by
     show FS.get? fs' p = FS.get? fs0 p
     rw [hfs p h1 h2]; exact h p h1 h2
+  new := fun _ _ h => h
+  inval := fun _ _ _ _ _ _ h _ _ => h
+
+/-- "Unless some open-for-write call has succeeded, the file system is the initial one" — with the bookkeeping that makes
+it checkable against the trace: the fault plan never changes, the trace has one entry per call, and a successful
+open-for-write is a trace entry `openW f` whose index is not the planned fault. -/
+def Untouched (fs0 : FS) (k0 : Option Nat) (s : St) : Prop :=
+  s.k = k0 ∧ s.trace.length = s.calls ∧
+    ((s.fs = fs0 ∧ s.wopened = []) ∨ (∃ i f, s.trace[i]? = some (Op.openW f) ∧ k0 ≠ some i))
+
+theorem stable_untouched (fs0 : FS) (k0 : Option Nat) (dest mp : String) : Stable dest mp (Untouched fs0 k0) where
+  tick := fun s op ⟨hk, hl, h⟩ => by
+    refine ⟨hk, by simp [hl], ?_⟩
+    rcases h with h | ⟨i, f, hi, hne⟩
+    · exact Or.inl h
+    · refine Or.inr ⟨i, f, ?_, hne⟩
+      show (s.trace ++ [op])[i]? = _
+      have hlt : i < s.trace.length := by
+        rcases Nat.lt_or_ge i s.trace.length with h' | h'
+        · exact h'
+        · rw [List.getElem?_eq_none h'] at hi; cases hi
+      rw [List.getElem?_append_left hlt]; exact hi
+  cb := fun _ _ _ h => h
+  cv := fun _ _ h => h
+  fs := fun s fs' _ hw ⟨hk, hl, h⟩ => by
+    refine ⟨hk, hl, ?_⟩
+    rcases h with ⟨_, h2⟩ | h
+    · exact absurd h2 hw
+    · exact Or.inr h
+  openW := fun s f fs' _ ⟨hk, hl, _⟩ hne => by
+    refine ⟨hk, by simp [hl], Or.inr ⟨s.calls, f, ?_, by rw [← hk]; exact hne⟩⟩
+    show (s.trace ++ [Op.openW f])[s.calls]? = _
+    rw [← hl]
+    simp
   new := fun _ _ h => h
   inval := fun _ _ _ _ _ _ h _ _ => h
 
